@@ -14,12 +14,21 @@ Second == {Lf("absent"), Lf("unset"), Lf("s"), Lf("u1"), <<"L", Lf("u1"), Lf("u2
 TreesSmall == {<<"V", a, b>> : a \in L0 \cup D1, b \in Second}
 TreesFull == {<<"V", a, b>> : a \in L0 \cup D1 \cup D2, b \in Second}
 ConcTrees == {<<"V", a, b>> : a \in {Lf("s"), Lf("u1"), <<"L", Lf("u1"), Lf("m")>>, <<"D", Lf("u2"), Lf("s")>>}, b \in {Lf("absent"), Lf("u1")}}
+\* trees in which one plain dict OBJECT occurs at two positions (the harness builds equal "D" sub-trees once: alias = TRUE)
+Atts == {<<"D", Lf("u1")>>, <<"D", Lf("u1"), Lf("s")>>, <<"D", Lf("s"), Lf("u2")>>, <<"D", <<"L", Lf("u1")>>, Lf("n")>>}
+AliasTrees == {<<"V", d, d>> : d \in Atts} \cup {<<"V", <<"D", d, <<"L", d>>>>, Lf("absent")>> : d \in Atts}
+              \cup {<<"V", <<"L", d, d>>, Lf("u1")>> : d \in Atts}
+NoDev == {}
+InPlace == {"in_place_nulling"}
+NoReuse == {FALSE}
+Bools == {TRUE, FALSE}
 AllHdr == {"none", "own", "own_ct", "shared"}
 HdrNone == {"none"}
 \* export: every tree with the wire the spec demands for it
 TreeSet == IF IOEnv.TREESET = "full" THEN TreesFull ELSE TreesSmall
-ExportCases == LET ts == SetToSeq(TreeSet) IN
-  [i \in 1..Len(ts) |-> [tree |-> ts[i], wire |-> Wire(ts[i], "none"), ok |-> MultipartSpec(ts[i])]]
+ExportCases == LET ts == SetToSeq(TreeSet)  as == SetToSeq(AliasTrees) IN
+  [i \in 1..Len(ts) |-> [tree |-> ts[i], wire |-> Wire(ts[i], "none"), ok |-> MultipartSpec(ts[i]), alias |-> FALSE]]
+  \o [i \in 1..Len(as) |-> [tree |-> as[i], wire |-> Wire(as[i], "none"), ok |-> MultipartSpec(as[i]), alias |-> TRUE]]
 ASSUME IOEnv.OUT_FILE = "" \/ JsonSerialize(IOEnv.OUT_FILE, ExportCases)
-ASSUME \A t \in TreeSet : MultipartSpec(t)
+ASSUME \A t \in TreeSet \cup AliasTrees : MultipartSpec(t)
 =============================================================================
